@@ -218,7 +218,7 @@ def anchor_coverage(pid, tier):
 	import tempfile
 	tmp = tempfile.mkdtemp(prefix='gverif-anchors-', dir=os.environ.get('TMPDIR') or '/dev/shm')      # whatever the cut-short slice leaves behind goes with it
 	try:
-		r = subprocess.run([sys.executable, '-m', 'mc.anchors', pid, tier, str(budget)], capture_output=True, text=True, timeout=budget * 3 + 25,
+		r = subprocess.run([sys.executable, '-m', 'mc.anchors', pid, tier, str(budget)], capture_output=True, text=True, timeout=budget * 2 + 10,
 		                   env=dict(os.environ, TMPDIR=tmp))
 		for line in r.stdout.splitlines():
 			if line.startswith('ANCHORS '):
